@@ -43,3 +43,33 @@ def forward_diff(block, axis=0):
         return block
     idx = np.arange(n)
     return np.take(block, np.clip(idx + 1, 0, n - 1), axis=axis) - block
+
+
+# ---- spies (C29): same values as the plain functions above, but every call is
+# logged as (block.size, phase, caller) in vf.sources.SPY_LOG ---------------------
+
+
+def _spy(block):
+    from vf import sources
+
+    sources.spy_record(block)
+
+
+def spy_times_two(x):
+    _spy(x)
+    return x * 2
+
+
+def spy_plus_one(x):
+    _spy(x)
+    return x + 1
+
+
+def spy_negate(x):
+    _spy(x)
+    return -x
+
+
+def spy_identity(x):
+    _spy(x)
+    return x
